@@ -144,6 +144,7 @@ def run_perturb(case: dict) -> core.CaseResult:
     pristine = {p: m for p, m in tree.walk(root1) if not isinstance(m, R.Repeated)}
     for op in oplist:
         root2 = docs.try_parse(text, M.File, mode)
+        hashed = [(t, hash(t)) for t in root2.token_store]      # tokens are hashed BEFORE the edit (a cached hash must not go stale)
         if op[0] == 'setdata':
             tgt = tree.resolve(root2, tuple(op[1]))
             if tgt is None:
@@ -163,6 +164,19 @@ def run_perturb(case: dict) -> core.CaseResult:
         where = f'{text!r} (mode {mode}) perturbed by {op}: '
         sub = {'text': text, 'mode': mode, 'ops': [op], 'perturb': True}
         path = tuple(op[1]) if not (op[1] and op[1][0] == '@') else ()
+        if op[0] in ('tokraw', 'tokval', 'setval', 'setnode'):
+            for t, _ in hashed:
+                if t.store_handle is None:
+                    continue
+                try:
+                    fresh = type(t).from_raw_text(t.raw_text)
+                except Exception:  # noqa: a raw text outside the language was forced into the token
+                    continue
+                res.transitions += 1
+                if fresh == t and t == fresh and hash(fresh) != hash(t):
+                    res.fail(f'C20/hash-inconsistent[{type(t).__name__}]', where + f'token {t!r} (hashed before the edit) equals a fresh '
+                             f'{fresh!r} but their hashes differ', sub)
+                    return res
         for k in range(len(path) + 1):
             p = path[:k]
             a = pristine.get(p)
